@@ -351,6 +351,76 @@ func c11R2(c *Ctx, r *Report) {
 			}
 			return false
 		})
+		if len(seen) == 0 {
+			// the table as a package-level map literal (name -> constructor), looked up by the canonical name, the
+			// constructor handed to hmac.New, a miss answered with ErrKeyAlg
+			ast.Inspect(fd.Body, func(n ast.Node) bool {
+				as, ok := n.(*ast.AssignStmt)
+				if !ok || len(as.Lhs) != 2 || len(as.Rhs) != 1 {
+					return true
+				}
+				ix, ok := ast.Unparen(as.Rhs[0]).(*ast.IndexExpr)
+				if !ok {
+					return true
+				}
+				tid, ok := ast.Unparen(ix.X).(*ast.Ident)
+				if !ok {
+					return true
+				}
+				tbl, isVar := c.Info.Uses[tid].(*types.Var)
+				if !isVar || tbl.Parent() != c.Types.Scope() {
+					return true
+				}
+				lit := c.pkgVarLiteral(tbl)
+				if lit == nil || c.pkgVarWritten(tbl) {
+					return true
+				}
+				if call, ok := ast.Unparen(ix.Index).(*ast.CallExpr); ok && c.calleeName(call) == "CanonicalName" && len(call.Args) == 1 {
+					if f := c.fieldOf(call.Args[0]); f != nil && f.Name() == "Algorithm" {
+						tagOK = true
+					}
+				}
+				ctorObj := c.objOfIdent(as.Lhs[0].(*ast.Ident))
+				okObj := c.objOfIdent(as.Lhs[1].(*ast.Ident))
+				fed := false
+				okDef := false
+				ast.Inspect(fd.Body, func(n ast.Node) bool {
+					if call, ok := n.(*ast.CallExpr); ok && c.calleeName(call) == "hmac.New" && len(call.Args) == 2 && c.isIdentOf(call.Args[0], ctorObj) {
+						fed = true
+					}
+					if ifs, ok := n.(*ast.IfStmt); ok {
+						if u, isNot := ast.Unparen(ifs.Cond).(*ast.UnaryExpr); isNot && u.Op == token.NOT && c.isIdentOf(u.X, okObj) {
+							for _, st := range ifs.Body.List {
+								if ret, isRet := st.(*ast.ReturnStmt); isRet && len(ret.Results) == 2 && types.ExprString(ret.Results[1]) == "ErrKeyAlg" {
+									okDef = true
+								}
+							}
+						}
+					}
+					return true
+				})
+				if !fed {
+					return true
+				}
+				r.check(okDef, "C11.R2.alg-table", "Generate:default", c.pos(as.Pos()), "ErrKeyAlg", "unknown algorithms must yield ErrKeyAlg")
+				for _, el := range lit.Elts {
+					kv, isKV := el.(*ast.KeyValueExpr)
+					if !isKV {
+						continue
+					}
+					name := types.ExprString(kv.Key)
+					seen[name] = true
+					w, known := want[name]
+					if !known {
+						r.fail("C11.R2.alg-table", "Generate:"+name, c.pos(kv.Pos()), "algorithm %s is not in the RFC 8945 table on file", name)
+						continue
+					}
+					ctor := types.ExprString(kv.Value)
+					r.check(ctor == w, "C11.R2.alg-table", "Generate:"+name, c.pos(kv.Pos()), w, "%s is computed with %s, RFC 8945 assigns %s", name, ctor, w)
+				}
+				return true
+			})
+		}
 		for n := range want {
 			if !seen[n] {
 				r.fail("C11.R2.alg-table", "Generate:"+n, c.pos(fd.Pos()), "algorithm %s is not supported", n)
